@@ -3,7 +3,9 @@
 Stores the confirmed seeded change /tmp/seed/out-<ID>/change<K>.diff under /verif/seeded/<ID>-<K>/, applies it to
 /repo, runs the registered check(s), records which fired, and restores /repo (git checkout -- .)."""
 import json, os, re, shutil, subprocess, sys, time
-V = "/verif"
+V = "/verif"                                   # where the seeded changes are stored
+W = os.environ.get("SEED_VERIF", V)            # where the checks are run (a scratch copy of /verif for parallel evaluation)
+R = os.environ.get("VERIF_REPO", "/repo")      # the tree the change is applied to (a scratch worktree for parallel evaluation)
 pid, k = sys.argv[1], sys.argv[2]
 checks = sys.argv[3:] or [pid]
 O = os.path.join(os.environ.get("SEEDROOT", "/tmp/seed"), "out-%s" % pid)
@@ -25,24 +27,24 @@ if os.path.exists(mf):
     meta = json.load(open(mf))
 elif os.path.exists(os.path.join(O, "meta%s.json" % k)):
     meta = json.load(open(os.path.join(O, "meta%s.json" % k)))
-st = subprocess.run(["git", "-C", "/repo", "status", "--short", "--untracked-files=no"], stdout=subprocess.PIPE).stdout.decode().strip()
+st = subprocess.run(["git", "-C", R, "status", "--short", "--untracked-files=no"], stdout=subprocess.PIPE).stdout.decode().strip()
 if st:
-    print("/repo is not clean:", st); sys.exit(2)
-r = subprocess.run(["git", "-C", "/repo", "apply", "--3way", os.path.join(D, "patch.diff")], stdout=subprocess.PIPE, stderr=subprocess.STDOUT)
+    print(R, "is not clean:", st); sys.exit(2)
+r = subprocess.run(["git", "-C", R, "apply", "--3way", os.path.join(D, "patch.diff")], stdout=subprocess.PIPE, stderr=subprocess.STDOUT)
 if r.returncode != 0:
-    subprocess.run(["git", "-C", "/repo", "reset", "-q"]); subprocess.run(["git", "-C", "/repo", "checkout", "--", "."])
-    r = subprocess.run(["git", "-C", "/repo", "apply", os.path.join(D, "patch.diff")], stdout=subprocess.PIPE, stderr=subprocess.STDOUT)
+    subprocess.run(["git", "-C", R, "reset", "-q"]); subprocess.run(["git", "-C", R, "checkout", "--", "."])
+    r = subprocess.run(["git", "-C", R, "apply", os.path.join(D, "patch.diff")], stdout=subprocess.PIPE, stderr=subprocess.STDOUT)
 if r.returncode != 0:
-    subprocess.run(["git", "-C", "/repo", "reset", "-q"]); subprocess.run(["git", "-C", "/repo", "checkout", "--", "."])
+    subprocess.run(["git", "-C", R, "reset", "-q"]); subprocess.run(["git", "-C", R, "checkout", "--", "."])
     print("patch does not apply:", r.stdout.decode()); sys.exit(2)
 results = meta.setdefault("checks", {})
-env = dict(os.environ); env["VERIF_EVIDENCE_DIR"] = "/verif/.cache/seed-evidence"
+env = dict(os.environ); env["VERIF_EVIDENCE_DIR"] = os.path.join(W, ".cache", "seed-evidence"); env["VERIF_REPO"] = R
 try:
     for c in checks:
         for tier, seed in (("quick", "1"), ("quick", "2"), ("thorough", "1")):
             env["VERIF_SEED"] = seed
             t0 = time.time()
-            p = subprocess.run(["timeout", "3000", "./check", c, "--tier", tier], cwd=V, stdout=subprocess.PIPE, stderr=subprocess.STDOUT, env=env)
+            p = subprocess.run(["timeout", "3000", "./check", c, "--tier", tier], cwd=W, stdout=subprocess.PIPE, stderr=subprocess.STDOUT, env=env)
             out = p.stdout.decode(errors="replace")
             viol = [l for l in out.splitlines() if l.startswith("VIOLATION")]
             what = []
@@ -59,8 +61,8 @@ try:
             if p.returncode == 1 and viol:
                 break
 finally:
-    subprocess.run(["git", "-C", "/repo", "reset", "-q"])
-    subprocess.run(["git", "-C", "/repo", "checkout", "--", "."])
+    subprocess.run(["git", "-C", R, "reset", "-q"])
+    subprocess.run(["git", "-C", R, "checkout", "--", "."])
 meta["caught_by"] = sorted({k_.split()[0] for k_, v in results.items() if v["rc"] == 1 and v["violations"]})
 json.dump(meta, open(mf, "w"), indent=1)
 print("caught_by", meta["caught_by"])
